@@ -116,6 +116,19 @@ def shards(tier, seed):
         for y0, y1 in zip(cuts, cuts[1:]):
             out.append({"name": "%s-all-%s-%d" % (f[0], f[3], y0),
                         "allyears": [i, y0, y1], "full": False})
+    # Jupiter (506 events of each kind in the domain) and Saturn (204): every
+    # event judged in the thorough tier, every third one (which third
+    # depends on the seed) in the quick tier; a Saturn call costs 0.2 s
+    for i, f in enumerate(FINDERS):
+        if f[3] not in ("peri", "aph") or f[0] not in ("Jupiter", "Saturn"):
+            continue
+        cuts = (-1999, -500, 1000, 2500, 3999) if f[0] == "Saturn" \
+            else (-1999, 1000, 3999)
+        stride = 1 if tier == "thorough" else 3
+        for y0, y1 in zip(cuts, cuts[1:]):
+            out.append({"name": "%s-all-%s-%d" % (f[0], f[3], y0),
+                        "allyears": [i, y0, y1, stride, 1,
+                                     seed % stride], "full": False})
     return out
 
 
@@ -487,7 +500,7 @@ def case_newyear(mon, fi, years):
             [planet, meth, len(years)])
 
 
-def case_allyears(mon, fi, y0, y1):
+def case_allyears(mon, fi, y0, y1, stride=1, judge_every=40, first=0):
     """Every event of the domain can be had: starting at year y0, each query
     is placed one period after the previous answer (i.e. at the expected
     instant of the next event, far from the point where the nearest event
@@ -497,10 +510,14 @@ def case_allyears(mon, fi, y0, y1):
     chain); every 40th event is also judged against VSOP87."""
     planet, meth, args, kind = FINDERS[fi]
     P = period_of(fi)
-    q = jd_of_year(float(y0)) + 0.5 * P
+    # (stride > 1: every stride-th event, starting with event number `first`;
+    # the slow finders of Jupiter and Saturn are walked like that in the
+    # quick tier, and every event is judged)
+    q = jd_of_year(float(y0)) + (0.5 + first) * P
     end = jd_of_year(float(y1))
     prev = None
     n = 0
+    lo, hi = (0.97, 1.03) if planet in INNER else (0.9, 1.1)
     while q < end:
         mon.evals += 1
         n += 1
@@ -512,12 +529,12 @@ def case_allyears(mon, fi, y0, y1):
                      "query": q, "raised": repr(ex)},
                     key_event(planet, kind, None, ex, q))
             prev = None
-            q += P
+            q += stride * P
             continue
         mon.ok("finder.no-exception")
         if prev is not None:
-            gap = (t - prev) / P
-            mon.check("spacing.one-period", 0.97 <= gap <= 1.03,
+            gap = (t - prev) / (P * stride)
+            mon.check("spacing.one-period", lo <= gap <= hi,
                       lambda: {"planet": planet, "finder": meth,
                                "args": list(args), "query": q,
                                "result_a": prev, "result_b": t,
@@ -526,11 +543,12 @@ def case_allyears(mon, fi, y0, y1):
                       lambda: {"planet": planet, "finder": meth, "query": q,
                                "result": t, "periods": (t - q) / P})
         prev = t
-        if n % 40 == 1:
+        if n % judge_every == 1 or judge_every == 1:
             judge_event(mon, fi, q, t, extra)
-        q = t + P
-    mon.cls("every-event-of-the-domain", (fi, y0, y1),
-            [planet, meth, list(args), y0, y1, n])
+        q = t + stride * P
+    mon.cls("every-event-of-the-domain" if stride == 1
+            else "every-%d-th-event-of-the-domain" % stride,
+            (fi, y0, y1, first), [planet, meth, list(args), y0, y1, n])
 
 
 def case_leapday(mon, fi, year):
